@@ -222,6 +222,14 @@ func (p *Prog) Func(rel, name string) *FuncInfo {
 	return fi
 }
 
+// Anchor marks a function that a rule identified by its shape (not by name) as one that must
+// stay a function in the normalised view.
+func (p *Prog) Anchor(fi *FuncInfo) {
+	if p.collect != nil && fi != nil {
+		p.collect[fi.Obj] = true
+	}
+}
+
 func (p *Prog) FuncOf(obj *types.Func) *FuncInfo {
 	if obj == nil {
 		return nil
